@@ -2027,13 +2027,26 @@ static bool eval_truth(Node *node) {
 }
 
 static int64_t eval2_raw(Node *node, char ***label) {
+  // The operands of a binary operator are evaluated left to right in
+  // separate statements: the order of evaluation inside one expression
+  // is up to the compiler that builds chibicc, and with it which of two
+  // operands gets reported when neither is constant.
+  int64_t l, r;
+  long double fl, fr;
+
   switch (node->kind) {
   case ND_ADD:
-    return eval2(node->lhs, label) + eval(node->rhs);
+    l = eval2(node->lhs, label);
+    r = eval(node->rhs);
+    return l + r;
   case ND_SUB:
-    return eval2(node->lhs, label) - eval(node->rhs);
+    l = eval2(node->lhs, label);
+    r = eval(node->rhs);
+    return l - r;
   case ND_MUL:
-    return eval(node->lhs) * eval(node->rhs);
+    l = eval(node->lhs);
+    r = eval(node->rhs);
+    return l * r;
   case ND_DIV:
     return eval_div(node, false);
   case ND_NEG:
@@ -2041,37 +2054,49 @@ static int64_t eval2_raw(Node *node, char ***label) {
   case ND_MOD:
     return eval_div(node, true);
   case ND_BITAND:
-    return eval(node->lhs) & eval(node->rhs);
+    l = eval(node->lhs);
+    r = eval(node->rhs);
+    return l & r;
   case ND_BITOR:
-    return eval(node->lhs) | eval(node->rhs);
+    l = eval(node->lhs);
+    r = eval(node->rhs);
+    return l | r;
   case ND_BITXOR:
-    return eval(node->lhs) ^ eval(node->rhs);
+    l = eval(node->lhs);
+    r = eval(node->rhs);
+    return l ^ r;
   case ND_SHL:
-    return eval(node->lhs) << eval(node->rhs);
+    l = eval(node->lhs);
+    r = eval(node->rhs);
+    return l << r;
   case ND_SHR:
+    l = eval(node->lhs);
+    r = eval(node->rhs);
     if (node->ty->is_unsigned && node->ty->size == 8)
-      return (uint64_t)eval(node->lhs) >> eval(node->rhs);
-    return eval(node->lhs) >> eval(node->rhs);
+      return (uint64_t)l >> r;
+    return l >> r;
   case ND_EQ:
-    if (is_flonum(node->lhs->ty))
-      return eval_double(node->lhs) == eval_double(node->rhs);
-    return eval(node->lhs) == eval(node->rhs);
   case ND_NE:
-    if (is_flonum(node->lhs->ty))
-      return eval_double(node->lhs) != eval_double(node->rhs);
-    return eval(node->lhs) != eval(node->rhs);
   case ND_LT:
-    if (is_flonum(node->lhs->ty))
-      return eval_double(node->lhs) < eval_double(node->rhs);
-    if (node->lhs->ty->is_unsigned)
-      return (uint64_t)eval(node->lhs) < eval(node->rhs);
-    return eval(node->lhs) < eval(node->rhs);
   case ND_LE:
-    if (is_flonum(node->lhs->ty))
-      return eval_double(node->lhs) <= eval_double(node->rhs);
+    if (is_flonum(node->lhs->ty)) {
+      fl = eval_double(node->lhs);
+      fr = eval_double(node->rhs);
+      if (node->kind == ND_EQ)
+        return fl == fr;
+      if (node->kind == ND_NE)
+        return fl != fr;
+      return node->kind == ND_LT ? fl < fr : fl <= fr;
+    }
+    l = eval(node->lhs);
+    r = eval(node->rhs);
+    if (node->kind == ND_EQ)
+      return l == r;
+    if (node->kind == ND_NE)
+      return l != r;
     if (node->lhs->ty->is_unsigned)
-      return (uint64_t)eval(node->lhs) <= eval(node->rhs);
-    return eval(node->lhs) <= eval(node->rhs);
+      return node->kind == ND_LT ? (uint64_t)l < r : (uint64_t)l <= r;
+    return node->kind == ND_LT ? l < r : l <= r;
   case ND_COND:
     return eval_truth(node->cond) ? eval2(node->then, label) : eval2(node->els, label);
   case ND_COMMA:
